@@ -979,8 +979,55 @@ def run(repo, rep, tier):
         r2.sites += 1
         r2.functions.add(f.fq)
         bad = list(uses_as_sequence(f, var))
-        # passed on to a helper that uses its parameter as a sequence
+        # passed on to a helper (a private method or a function nested in
+        # the operation) that uses its parameter as a sequence
+        from ..constprop import may_return_given
+        from ..cfg import CFG as _CFG
+        nested = {n.name: n for n in ast.walk(f.node)
+                  if isinstance(n, ast.FunctionDef) and n is not f.node}
+
+        class _Nested:
+            def __init__(self, node):
+                self.node, self.name = node, node.name
+                self.body = node.body
+                self.params = [a.arg for a in node.args.args]
+
+        def helper_of(c):
+            d = dotted(c.func) or ''
+            if d.startswith('self._') and d.count('.') == 1:
+                return conn.methods.get(d[5:])
+            if d in nested:
+                return _Nested(nested[d])
+            return None
+
+        def passes(c, h):
+            hp = [p_ for p_ in h.params if p_ != 'self']
+            out_ = [hp[i] for i, a in enumerate(c.args)
+                    if isinstance(a, ast.Name) and a.id == var and
+                    i < len(hp)]
+            out_ += [k.arg for k in c.keywords
+                     if isinstance(k.value, ast.Name) and
+                     k.value.id == var and k.arg in hp]
+            return out_
         fx = stmt_facts(f.node)
+        # statements after which `var` cannot be None: they hand it to a
+        # helper that never returns for None
+        rejecting = []
+        for st in fx:
+            if isinstance(st, (ast.If, ast.While, ast.Try, ast.With,
+                               ast.For)):
+                continue
+            # only calls that are evaluated whenever the statement is
+            for c in ast.walk(st):
+                if not isinstance(c, ast.Call) or expr_guards(st, c):
+                    continue
+                h = helper_of(c)
+                if h is None:
+                    continue
+                for pn in passes(c, h):
+                    if not may_return_given(h, {pn: None}):
+                        rejecting.append(st)
+        cfg_f = _CFG(f.node) if rejecting else None
         for st, (fs, _) in fx.items():
             if isinstance(st, (ast.If, ast.While, ast.Try, ast.With,
                                ast.For)):
@@ -990,17 +1037,25 @@ def run(repo, rep, tier):
             if guarded:
                 continue
             for c in ast.walk(st):
-                if isinstance(c, ast.Call) and \
-                        (dotted(c.func) or '').startswith('self._get_'):
-                    h = conn.methods.get(dotted(c.func)[5:])
-                    if h is None:
+                if not isinstance(c, ast.Call):
+                    continue
+                h = helper_of(c)
+                if h is None:
+                    continue
+                if any((norm(t) == var + ' is None' and not pol)
+                       for t, pol in expr_guards(st, c)):
+                    continue
+                for pn in passes(c, h):
+                    uses = uses_as_sequence(h, pn)
+                    if not uses:
                         continue
-                    hp = [p_ for p_ in h.params if p_ != 'self']
-                    for i, a in enumerate(c.args):
-                        if isinstance(a, ast.Name) and a.id == var and \
-                                i < len(hp):
-                            for st2, how in uses_as_sequence(h, hp[i]):
-                                bad.append((st, '%s by %s()' % (how, h.name)))
+                    if cfg_f is not None and st not in rejecting and \
+                            cfg_f.path_avoiding(
+                                cfg_f.ENTRY, st,
+                                lambda x: x in rejecting) is None:
+                        continue    # var was rejected for None before
+                    for st2, how in uses:
+                        bad.append((st, '%s by %s()' % (how, h.name)))
         r2.ob(not bad, f.name, {'operation': f.name, 'result_var': var,
                                 'unguarded_uses': [norm(s_, 60)
                                                    for s_, _ in bad][:3]})
